@@ -24,6 +24,9 @@ PROBES = ['A node is identified by an id.\nThey go to a node.\n']
 _TRUCK = 'A truck is identified by an id, and has a load.\nIt is prohibited that L is greater than maxLoad, whenever there is a truck with id T, with load L.\n'
 PAIRS = [('maxLoad is a constant equal to 10.\n' + _TRUCK, _TRUCK),
          ('A node is identified by an id, and has a weight.\nA node goes from 1 to 3.\n', REJECTED[-1])]
+# a text whose acceptance and export depend on automatic linking ('with shift equal to vacation' on the relation work_in)
+NEEDS_LINK = ('A shift is identified by an id.\nA nurse goes from 1 to 3.\nA day goes from 1 to 7.\nEvery nurse can work in exactly 1 shift for each day.\n'
+              'It is prohibited that the number of days with shift equal to vacation where a nurse works in is different from 2.\n')
 DECLARES_NODE = 'A node is identified by an id, and has a weight.\nA node goes from 1 to 3.\n'
 
 
@@ -83,6 +86,11 @@ def run(tier, seed):
                 last = [api, second]
                 jobs.append(dict(with_functions=False, calls=[[api, first], last], last=last, construct_first=False))
                 jobs.append(dict(with_functions=False, calls=[[api, second], [api, first], last], last=last, construct_first=True))
+    # an option must not outlive a REJECTED call: every rejected text through compile without auto-linking, then each call on a text that needs linking
+    for rej in REJECTED + ['A nurse is identified by an id.\nIt is prohibited that a nurse N works in ward W, whenever there is a ward W.\n']:
+        for api in APIS:
+            last = [api, NEEDS_LINK]
+            jobs.append(dict(with_functions=False, calls=[['compile_nolink', rej], last], last=last, construct_first=False))
     tasks = []
     for j in jobs:
         tasks.append((dict(with_functions=j['with_functions'], calls=j['calls'], construct_first=j['construct_first']), seeds[0]))       # with history
